@@ -149,8 +149,9 @@ def getAt (sz : Sizer) (values : List (Bytes × Bytes)) (idx : Nat) : Res (List 
               .ok (acc ++ [(k, replaceByte 0x00 0x0a v)])
       else .ok (acc ++ [(k, v)])
 
-/-- `Reset()`: only the cursors are cleared; the sink symbol (and `memberSizes`) survive. -/
-def reset (sz : Sizer) : Sizer := { sz with crsrs := [] }
+/-- `Reset()`: cursors, sink symbol and member sizes are all forgotten (the sink used to survive
+until the `fix:` commit c2a9262). -/
+def reset (sz : Sizer) : Sizer := { sz with crsrs := [], sink := [] }
 
 end Sizer
 
